@@ -19,7 +19,9 @@ for d in seeded/*/; do
   git -C /repo worktree remove --force "$wt" >/dev/null 2>&1
   v=$(echo "$out" | grep -c '^VIOLATION')
   case $rc in 1) res=CAUGHT;; 0) res=MISSED;; *) res="INCONCLUSIVE";; esac
-  echo "$name $prop $res rc=$rc violations=$v $(echo "$out" | grep -m1 'assert=' | cut -c1-140)"
+  line="$name $prop $res rc=$rc violations=$v $(echo "$out" | grep -m1 'assert=' | cut -c1-140)"
+  echo "$line"
+  printf '%s\t%s\t%s\t%s\t%s\t%s\n' "$name" "$prop" "$res" "$tier" "$(git -C /verif rev-parse --short HEAD)" "$(echo "$out" | grep -m1 'assert=' | sed 's/^ *//' | cut -c1-160)" >> /verif/seeded/RESULTS.tsv
   [ "$res" = INCONCLUSIVE ] && echo "$out" | grep -m2 INCONCLUSIVE | cut -c1-300
 done
 rm -f evidence/*.seeded.json
